@@ -1728,6 +1728,9 @@ def transpose(surf, **kwargs):
         g.knotvector_u = kv_u_new
         g.knotvector_v = kv_v_new
 
+        # The evaluation deltas (sample sizes) belong to the parametric directions
+        g.delta = (g.delta_v, g.delta_u)
+
         # The trim curves are defined on the parametric space of the surface
         for trim in g.trims:
             ops.swap_trim_coordinates(trim)
